@@ -13,6 +13,18 @@ STUB_SETS = {
 DEFAULT_VARIANT = [dict(name="default", env={}, target="kani")]
 
 PROPS = {
+    "C04": dict(
+        modules=["c04"],
+        quick=dict(jobs=14, timeout_s=900, mem_gb=10),
+        thorough=dict(jobs=12, timeout_s=3600, mem_gb=16),
+        bounds="", outside="", explanation="", assumptions=[], claim="wip", note="wip",
+    ),
+    "C10": dict(
+        modules=["c10"],
+        quick=dict(jobs=14, timeout_s=900, mem_gb=10),
+        thorough=dict(jobs=12, timeout_s=3600, mem_gb=16),
+        bounds="", outside="", explanation="", assumptions=[], claim="wip", note="wip",
+    ),
     "C19": dict(
         modules=["c19"],
         quick=dict(jobs=14, timeout_s=900, mem_gb=8),
